@@ -862,4 +862,17 @@ C13OK(e) ==
        [] OTHER -> FALSE
 
 MagGroupOK(e, idx) == Has(e, "C13") => Chk("C13", idx, C13OK(e))
+
+(***************************************************************************)
+(* A recorded concurrent run (C18): the observed order in which the        *)
+(* segments started must be the schedule the model prescribed (so the      *)
+(* interleaving that was explored is the one TLC chose), it must be a      *)
+(* complete behaviour of Sched.tla (every process ran its S segments), and *)
+(* every call returned exactly what it returns when run alone.             *)
+(***************************************************************************)
+CountIn(seq, x) == Cardinality({i \in 1..Len(seq) : seq[i] = x})
+SchedRunOK(e, idx) ==
+  /\ Chk("GENERATOR", idx, e.forced => (e.observed = e.sched /\ \A p \in 1..e.n : CountIn(e.sched, p) = e.s))
+  /\ Has(e, "C18") => Chk("C18", idx, /\ \A k \in 1..Len(e.calls) : e.calls[k].out = "ok" /\ e.calls[k].same
+                                     /\ e.inputsSame /\ ~e.race)
 =============================================================================
